@@ -106,13 +106,20 @@ def case_name(c):
         s += "/valchunks=" + "+".join(map(str, c["chunks"]))
     if c.get("order") is not None:
         s += "/order=" + "".join(map(str, c["order"]))
+    if c.get("codes") is not None:
+        s += "/codes=" + ",".join(map(str, c["codes"]))
     return s
 
 
 def build(case, inp):
     N, G, dt = case["N"], case["G"], real_np.dtype(case["dtype"])
     d = {}
-    d["codes"] = inp.codes("k", N, G)
+    if case.get("codes") is not None:
+        d["codes"] = list(case["codes"])
+        if inp.concrete is None:
+            inp.vars["k"] = ("const", list(case["codes"]), "int64")
+    else:
+        d["codes"] = inp.codes("k", N, G)
     if case["func"] != "size":
         d["values"] = inp.values("v", N, dt)
     m = case["mask"]
@@ -375,16 +382,20 @@ def concrete_inputs(case, conc):
     return build(case, inp)
 
 
-def replay(case, conc):
+def replay(case, conc, with_count=False):
     """-> (violates: bool, detail).  Runs the real compiled function and evaluates the spec on python numbers."""
     conc = {k: [float("nan") if x is None else x for x in v] if isinstance(v, list) else v for k, v in conc.items()}
     d = concrete_inputs(case, conc)
+    cnt = None
     try:
-        out = real_call(case, conc)
+        out = real_call(case, conc, return_count=with_count and case["func"] != "size")
+        if with_count and case["func"] != "size":
+            out, cnt = out
+            cnt = np_to_cells(cnt)
     except Exception as e:      # noqa: BLE001
         return True, f"real call raised {type(e).__name__}: {e}"
     cells = np_to_cells(out)
-    bads = spec_bads(case, d, cells)
+    bads = spec_bads(case, d, cells, cnt)
     failed = [lab for lab, b in bads if conc_bool(b) is True]
     detail = {"real_output": jsonable(cells), "failed": failed, "inputs": jsonable(conc)}
     return bool(failed), detail
@@ -426,6 +437,15 @@ def run_case(E, case, prop, with_count=False):
     r = {"verdict": dec.verdict, "solver_s": dec.solver_s, "symex_s": symex, "n_queries": dec.n_queries,
          "obligations": dec.obligations, "failed_obligations": dec.failed_obligations, "witnesses": dec.witnesses,
          "candidates": [], "encoded": sorted(E.encoded)}
+    if case.get("witness"):
+        from ..harness import solve_exists
+        res_, m = solve_exists(list(inp.pre) + list(rt.pre), True)
+        r["n_queries"] += 1
+        if m is not None:
+            r["reach_model"] = jsonable(inp.eval(m))
+        else:
+            r["verdict"] = "error"
+            r["detail"] = "vacuous harness: preconditions unsatisfiable"
     if dec.verdict == "sat":
         r["candidates"].append({"signature": f"{prop}:" + signature_of(case, dec.which), "case": case,
                                 "inputs": jsonable(dec.model), "kind": "property", "labels": dec.which[:6]})
@@ -441,7 +461,7 @@ def run_case(E, case, prop, with_count=False):
 # ------------------------------------------------------------------ translator validation (concrete shadow vs compiled)
 def random_concrete(case, rnd):
     N, G, dt = case["N"], case["G"], real_np.dtype(case["dtype"])
-    conc = {"k": [rnd.randint(-1, G - 1) for _ in range(N)]}
+    conc = {"k": list(case["codes"]) if case.get("codes") is not None else [rnd.randint(-1, G - 1) for _ in range(N)]}
     if case["func"] != "size":
         if dt.kind == "f":
             conc["v"] = [float("nan") if rnd.random() < 0.25 else float(rnd.randint(-6, 6)) / 2 for _ in range(N)]
